@@ -23,10 +23,13 @@ CONSTANTS OptsSet,    \* set of option records
           Mark,       \* BOOLEAN: measurements carry the vinst marker
           MaxPre,     \* scrapes allowed BEFORE the exporter is registered with a MeterProvider
           AllowShut,  \* BOOLEAN: MeterProvider.Shutdown (and one scrape after it) is explored
-          MaxInst, MaxRec, MaxScr
+          MaxInst, MaxRec, MaxScr,
+          FaultSet,   \* subset of PromModel!Faults: faults of the collection that may be armed (and cleared again)
+          MaxFaults   \* how many of them at the same time
 
-VARIABLES o, started, phase, npre, created, recs, cache, nscr, out, hist, act
-vars == <<o, started, phase, npre, created, recs, cache, nscr, out, hist, act>>
+VARIABLES o, started, phase, npre, created, recs, cache, nscr, out, hist, act,
+          faults      \* the armed faults: every collection fails with them (non-fatally) until they are cleared
+vars == <<o, started, phase, npre, created, recs, cache, nscr, out, hist, act, faults>>
 
 NoOpts == [scheme |-> "none", noUnits |-> FALSE, noSuffix |-> FALSE, ns |-> <<>>, noTarget |-> FALSE,
            noScope |-> FALSE, resConst |-> FALSE, resKeys |-> <<>>]
@@ -65,7 +68,7 @@ Env == [o |-> o, res |-> Res, insts |-> created, ases |-> ASes, bounds |-> [k \i
 (* phase: "unreg" exporter created (New), not yet handed to a MeterProvider; "reg" after Register (WithReader);  *)
 (* "down" after MeterProvider.Shutdown; "done" after the one scrape that follows it                            *)
 Init == /\ o = NoOpts /\ started = FALSE /\ phase = "none" /\ npre = 0 /\ created = <<>> /\ recs = <<>> /\ cache = {} /\ nscr = 0
-        /\ out = NoOut /\ hist = <<>> /\ act = [op |-> "Init"]
+        /\ out = NoOut /\ hist = <<>> /\ act = [op |-> "Init"] /\ faults = {}
 
 Log(a) == act' = a /\ hist' = Append(hist, a)
 
@@ -75,7 +78,7 @@ New(op) == /\ ~started
            /\ UNCHANGED <<npre, created, recs, cache, nscr>>
 
 (* a scrape before registration: nothing is exposed and -- the point -- nothing is remembered (cache, infos) *)
-PreScr == /\ phase = "unreg" /\ npre < MaxPre
+PreScr == /\ phase = "unreg" /\ npre < MaxPre /\ Duty(CollectKind(phase, faults)) = "nothing"
           /\ npre' = npre + 1 /\ out' = NoOut
           /\ Log([op |-> "Scrape"])
           /\ UNCHANGED <<o, started, phase, created, recs, cache, nscr>>
@@ -106,7 +109,8 @@ Rec(k, a, v, sp) == /\ phase = "reg" /\ Len(recs) < MaxRec /\ k \in 1..Len(creat
                 /\ Log([op |-> "Rec", inst |-> created[k].id, as |-> a, v |-> v, sp |-> sp])
                 /\ UNCHANGED <<o, started, phase, npre, created, cache, nscr>>
 
-Scr == /\ phase = "reg" /\ nscr < MaxScr /\ created # <<>>
+(* the collection behind it is ok or PARTIAL (faults armed): the duty is the same, everything the reader produced *)
+Scr == /\ phase = "reg" /\ nscr < MaxScr /\ created # <<>> /\ Duty(CollectKind(phase, faults)) = "data"
        /\ (recs # <<>> \/ (MaxScr > 1 /\ nscr = 0))   \* one scrape before any measurement, where another can follow
        /\ LET r == Scrape(Env, Streams, cache, NameMap(Env, Canon), {}) IN
           /\ cache' = r.cache
@@ -115,13 +119,23 @@ Scr == /\ phase = "reg" /\ nscr < MaxScr /\ created # <<>>
        /\ Log([op |-> "Scrape"])
        /\ UNCHANGED <<o, started, phase, npre, created, recs>>
 
-Next == \/ \E op \in OptsSet : New(op)
-        \/ \E t \in Templates : Create(t)
-        \/ \E k \in 1..MaxInst, a \in RecAS, v \in Vals, sp \in SpanFlags : Rec(k, a, v, sp)
-        \/ Scr \/ PreScr \/ Register \/ Shut \/ PostScr
+(* a callback / producer starts or stops failing (a backend goes away and comes back) *)
+Fault(f) == /\ phase = "reg" /\ created # <<>>
+            /\ (f \notin faults => Cardinality(faults) < MaxFaults)
+            /\ faults' = IF f \in faults THEN faults \ {f} ELSE faults \cup {f}
+            /\ out' = NoOut
+            /\ Log([op |-> "Fault", f |-> f, on |-> f \notin faults])
+            /\ UNCHANGED <<o, started, phase, npre, created, recs, cache, nscr>>
+
+Next == \/ /\ \/ \E op \in OptsSet : New(op)
+              \/ \E t \in Templates : Create(t)
+              \/ \E k \in 1..MaxInst, a \in RecAS, v \in Vals, sp \in SpanFlags : Rec(k, a, v, sp)
+              \/ Scr \/ PreScr \/ Register \/ Shut \/ PostScr
+           /\ UNCHANGED faults
+        \/ \E f \in FaultSet : Fault(f)
 Spec == Init /\ [][Next]_vars
 
-View == <<o, started, phase, npre, created, recs, cache, nscr>>
+View == <<o, started, phase, npre, created, recs, cache, nscr, faults>>
 EmitEdge == (act'.op # "Scrape") \/ PrintT("EDGE " \o ToJson([path |-> hist, act |-> act']))
 
 (* ---- the statement on the model ---- *)
@@ -137,6 +151,9 @@ Inv ==
   /\ \A f1, f2 \in out.fams : f1.name = f2.name => f1 = f2
   /\ (out.scr /\ ~o.noTarget) => \E f \in out.fams : f.name = "target_info"
   /\ o.noScope => ~\E f \in out.fams : f.name = "otel_scope_info"
+  /\ faults \subseteq Faults
+  (* whatever faults are armed: a scrape of a registered exporter exposes every stream the SDK holds *)
+  /\ out.scr => \A k \in 1..Len(Streams) : \E f \in out.fams : f.name = NameMap(Env, Canon)[Streams[k].inst]
 (* the first definition of a family is never replaced *)
 CacheStable == [][cache \subseteq cache']_vars
 =============================================================================
